@@ -601,6 +601,32 @@ func c10Replay(c Case) (bool, string) {
 func init() {
 	Parts["C10real"] = Part{"C10", C10real}
 	Replayers["C10"] = func(c Case) (bool, string) {
+		if c["op"] == "replay13" {
+			var (
+				st  c10State
+				m   c10Model
+				oi  int
+				ops []c10Op
+			)
+
+			for _, o := range c10Ops() {
+				if o.elem {
+					ops = append(ops, o)
+				}
+			}
+
+			fmt.Sscan(c["opindex"], &oi)
+			a, b := repFromCase("a", c), repFromCase("b", c)
+			two, nm1 := big.NewInt(2), new(big.Int).Sub(ref.N, big.NewInt(1))
+			st.e[0], st.e[1] = rawOf(newElement(a)), rawOf(newElement(b))
+			m.e[0], m.e[1] = a.P, b.P
+			st.s[0], st.s[1] = ref.Mont(two, ref.N), ref.Mont(nm1, ref.N)
+			m.s[0], m.s[1] = two, nm1
+			_, _, key, detail := c10Apply(st, m, ops[oi])
+
+			return key == "", key + " " + detail
+		}
+
 		if c["op"] != "history" {
 			return false, "not replayable as a single case; re-run the check"
 		}
